@@ -77,18 +77,26 @@ impl Window {
             },
         };
 
+        // Los laterales son planos verticales perpendiculares al eje X del opaco (inclinación 90º), también en opacos
+        // inclinados u horizontales. Sus vértices se giran en ese plano el ángulo que el opaco se aparta de la vertical,
+        // para que sigan el eje Y del opaco y su normal (con opaco vertical el giro es nulo)
+        let (sin_r, cos_r) = (wallgeom.tilt - 90.0).to_radians().sin_cos();
+
         let left_fin = Shade {
             id: uuid_from_str(&format!("{}-left_setback", self.id)),
             name: format!("{}_left_setback", self.name),
             geometry: WallGeom {
-                tilt: wallgeom.tilt,
+                tilt: 90.0,
                 azimuth: wallgeom.azimuth + 90.0,
                 position: Some(wall2world * point![wpos.x, wpos.y + wing.height, 0.0]),
                 polygon: vec![
                     point![0.0, 0.0],
-                    point![0.0, -wing.height],
-                    point![wing.setback, -wing.height],
-                    point![wing.setback, 0.0],
+                    point![wing.height * sin_r, -wing.height * cos_r],
+                    point![
+                        wing.setback * cos_r + wing.height * sin_r,
+                        wing.setback * sin_r - wing.height * cos_r
+                    ],
+                    point![wing.setback * cos_r, wing.setback * sin_r],
                 ],
             },
         };
@@ -97,14 +105,17 @@ impl Window {
             id: uuid_from_str(&format!("{}-right_setback", self.id)),
             name: format!("{}_right_setback", self.name),
             geometry: WallGeom {
-                tilt: wallgeom.tilt,
+                tilt: 90.0,
                 azimuth: wallgeom.azimuth - 90.0,
                 position: Some(wall2world * point![wpos.x + wing.width, wpos.y + wing.height, 0.0]),
                 polygon: vec![
                     point![0.0, 0.0],
-                    point![-wing.setback, 0.0],
-                    point![-wing.setback, -wing.height],
-                    point![0.0, -wing.height],
+                    point![-wing.setback * cos_r, wing.setback * sin_r],
+                    point![
+                        -wing.setback * cos_r - wing.height * sin_r,
+                        wing.setback * sin_r - wing.height * cos_r
+                    ],
+                    point![-wing.height * sin_r, -wing.height * cos_r],
                 ],
             },
         };
